@@ -40,7 +40,7 @@ from vf.ref import poly
 from vf.ref import thermdat as rt
 
 ID = 'C05'
-N = {'quick': 12000, 'thorough': 200000}
+N = {'quick': 25000, 'thorough': 400000}
 NT_RULE = ('one case = one thermdat file: 1-200 generated NASA-7 species (list or dict input; file or '
            'string output; read format list/tuple/dict; date or notes; optional comment block and '
            'supplementary entries) drawn per case index from a seeded PRNG after a list of directed '
